@@ -202,8 +202,14 @@ def split_bodies(text):
     i = 0
     n = len(lines)
     bodies = []
+    simple = {}
     while i < n:
         l = lines[i]
+        m1 = _SIMPLE_CONST.match(l)
+        if m1:
+            simple[m1.group(1)] = m1.group(3)
+            i += 1
+            continue
         if HEAD_RE.match(l) and l.rstrip().endswith('{'):
             j = i + 1
             while j < n and lines[j] != '}':
@@ -214,7 +220,9 @@ def split_bodies(text):
             i = j + 1
         else:
             i += 1
-    return bodies
+    return bodies, simple
+
+_SIMPLE_CONST = re.compile(r'^const (.+?): (.+?) = const (.+);$')
 
 LOCAL_RE = re.compile(r'^\s+let (mut )?(_\d+): (.*);$')
 DEBUG_RE = re.compile(r'^\s+debug (.+?) => (.*);$')
@@ -637,7 +645,7 @@ def _parse_blocks(b):
 class Program:
     """All bodies of one dump, indexed by name."""
     def __init__(self, text):
-        self.bodies = split_bodies(text)
+        self.bodies, self.simple_consts = split_bodies(text)
         self.by_name = {}
         for b in self.bodies:
             self.by_name.setdefault(b.name, []).append(b)
